@@ -48,9 +48,11 @@ CONSTANTS
                   \* FALSE: a broken merge (read + compute without the lock, only the assignment locked)
   PropagateAlways,\* TRUE : code as is (an aggregator ALWAYS passes its value on to its parent after a merge)
                   \* FALSE: a broken aggregator (passes it on only when it differs from the value sampled before the merge)
-  SampleStep      \* TRUE : the sample of the old value (oldState / oldStatus, read before the merge, outside the lock)
+  SampleStep,     \* TRUE : the sample of the old value (oldState / oldStatus, read before the merge, outside the lock)
                   \*        is a step of its own (the granularity of the gates); FALSE: taken together with MergeEnter
                   \*        (equivalent when PropagateAlways: the sample is then used for the role events only)
+  OnlyChildShortcut \* FALSE: code as is (a merge that recomputes walks over the children, also when there is one)
+                  \* TRUE : a broken merge (an aggregator with exactly one child takes the forwarded value as its own)
 
 VARIABLES shape, cS, cT, thr, last, episodes,
           lock    \* lock[kind][role] = thread holding the role's state / status mutex (0 = free)
@@ -157,7 +159,12 @@ Shapes ==
     S21 |-> Sh(<<0, 1, 2, 1, 4, 1, 1, 1>>, <<"agg", "agg", "task", "agg", "task", "call", "call", "task">>,
                <<T, T, T, T, T, T, T, T>>),
     \* two copies of an aggregator template without critical descendant, next to a critical task
-    S22 |-> Sh(<<0, 1, 2, 1, 4, 1>>, <<"agg", "agg", "task", "agg", "task", "task">>, <<T, T, F, T, F, T>>)
+    S22 |-> Sh(<<0, 1, 2, 1, 4, 1>>, <<"agg", "agg", "task", "agg", "task", "task">>, <<T, T, F, T, F, T>>),
+    \* hook tasks: task roles with a trigger ("hook"; they come and go while the workflow runs)
+    S23 |-> Sh(<<0, 1, 2, 2, 1>>, <<"agg", "agg", "hook", "task", "task">>, <<T, T, T, T, T>>),
+    S24 |-> Sh(<<0, 1, 1, 1>>, <<"agg", "hook", "task", "hook">>, <<T, F, T, T>>),
+    \* a chain of single-child aggregators (root, include) above a multi-child one
+    S25 |-> Sh(<<0, 1, 2, 3, 3>>, <<"agg", "inc", "agg", "task", "task">>, <<T, T, T, T, T>>)
   ]
 
 (* Which sibling roles of a shape the workflow template expresses as ONE `for:` iterator over a role    *)
@@ -196,7 +203,7 @@ Sources ==
 
 Prune(src) ==
   LET n == Len(src.parent)
-      isleaf(m) == src.kind[m] \in {"task", "call"}
+      isleaf(m) == src.kind[m] \in {"task", "call", "hook"}
       RECURSIVE anc(_)
       anc(m) == IF m = 0 THEN {} ELSE {m} \cup anc(src.parent[m])
       \* a leaf survives when it and all its ancestors are enabled; an aggregator when a leaf below it does
@@ -217,7 +224,7 @@ N == Len(Tree.parent)
 Nodes == 1..N
 Root == 1
 Parent(n) == Tree.parent[n]
-IsLeaf(n) == Tree.kind[n] \in {"task", "call"}
+IsLeaf(n) == Tree.kind[n] \in {"task", "call", "hook"}
 Leaves == {n \in Nodes : IsLeaf(n)}
 Aggs == Nodes \ Leaves
 Crit(n) == Tree.crit[n]
@@ -278,6 +285,7 @@ MergeState(c, n, s) ==
   IF c[n] = s THEN c[n]
   ELSE IF TrustCarried /\ s = "MIXED" /\ c[n] # "ERROR" THEN "MIXED"
   ELSE IF TrustCarried /\ s = "ERROR" THEN "ERROR"
+  ELSE IF OnlyChildShortcut /\ Len(Children(n)) = 1 THEN s
   ELSE AggState(c, n)
 
 \* safestatus.go: aggregateStatus(roles): no roles => UNDEFINED; first child, then X with the
@@ -294,6 +302,7 @@ AggStatus(c, n) ==
 MergeStatus(c, n, s) ==
   IF c[n] = s THEN c[n]
   ELSE IF TrustCarried /\ s = "UNDEFINED" THEN "UNDEFINED"
+  ELSE IF OnlyChildShortcut /\ Len(Children(n)) = 1 THEN s
   ELSE AggStatus(c, n)
 
 Idle == [kind |-> "-", leaf |-> 0, at |-> 0, carried |-> "-", newv |-> "-", old |-> "-", wait |-> "-", pc |-> "idle"]
@@ -307,7 +316,7 @@ LeafValues(l, k) ==
 
 InitState(s, n) ==
   LET sh == Shapes[s]
-      isleaf(m) == sh.kind[m] \in {"task", "call"}
+      isleaf(m) == sh.kind[m] \in {"task", "call", "hook"}
       RECURSIVE anc(_)
       anc(m) == IF m = 0 THEN {} ELSE {m} \cup anc(sh.parent[m])
       critUnder == {m \in 1..Len(sh.parent) : isleaf(m) /\ sh.crit[m] /\ n \in anc(m)}
